@@ -592,6 +592,51 @@ def rule_bits(crate, prop, tier):
                     walk(x)
         for t in _all_terms(an):
             walk(t)
+    # range-masked word reads outside any loop: a query that masks a fixed number of words with multi-bit masks decides
+    # something about a row (or the matrix) from boundedly many words, but a row spans arbitrarily many for large orders
+    for p in crate.fn_paths():
+        an = crate.an(p)
+        if crate.prog.fns[p]["kind"] == "Closure":
+            continue
+        hits = []
+
+        def walk2(t, b, seen):
+            if not isinstance(t, tuple) or not t or (t, b) in seen:
+                return
+            seen.add((t, b))
+            if t[0] == "bin" and t[1] == "BitAnd":
+                for w, m in ((t[2], t[3]), (t[3], t[2])):
+                    r, li = load_parts(w)
+                    if r is None:
+                        continue
+                    ri = an.region_info.get(r)
+                    if not (ri and ri.get("chain") and ri["chain"][-1] == (AM, "blocks")):
+                        continue
+                    ms = []
+                    single = m[0] == "const" or (m[0] == "un" and m[1] == "Not" and m[2][0] == "bin" and m[2][1] == "Shl" and m[2][2][0] == "const"
+                                                 and m[2][2][2] == 1) or (m[0] == "bin" and m[1] == "Shl" and m[2][0] == "const" and m[2][2] == 1)
+                    is_word = load_parts(m)[0] is not None
+                    if not single and not is_word and an.cfg.loop_of(b) is None:
+                        hits.append(b)
+            for x in t:
+                if isinstance(x, tuple):
+                    walk2(x, b, seen)
+        seen2 = set()
+        for ev in an.events:
+            for k_ in ("args", "val", "discr", "res"):
+                v_ = ev.get(k_)
+                if isinstance(v_, list):
+                    for x in v_:
+                        walk2(x, ev["b"], seen2)
+                elif isinstance(v_, tuple):
+                    walk2(v_, ev["b"], seen2)
+        for (b_, i_), t_ in an.stmt_terms.items():
+            walk2(t_, b_, seen2)
+        if hits:
+            nr += 1
+            o.check(False, crate.prog.pretty[p], "bounded-range-read", "words of the bit matrix are masked with multi-bit (range) masks outside "
+                    "any loop over the words: only a bounded number of words is examined, but a row spans more than that for large orders",
+                    crate.prog.fns[p].get("span"))
     o.instances = n + nr
     return o.report(floors={"bit-matrix writes": (n, 3), "bit-matrix single-cell reads": (nr, 1)})
 
@@ -669,6 +714,67 @@ def _word_or_under_equal_orders(crate, an, ev, R, idx):
             if ri and ri.get("chain") and ri["chain"][-1] == (AM, "blocks"):
                 return _equal_orders_known(an, fx, ev["b"], AM)
     return False
+
+
+def rule_bitset(crate, prop, tier):
+    """BITSET (crate-wide): wherever a word of a buffer is addressed as `buf[x >> k]` and combined with or tested against
+    a single-bit mask `1 << (x & m)` of the same x, the mask keeps exactly the k low bits: m == 2^k - 1.  With a smaller
+    m two elements share a bit (x and x ^ 2^j alias), with a larger one the shift overflows."""
+    from .relax import _all_terms
+    from .schema import load_parts
+    o = Obl("BITSET")
+    n = 0
+
+    def single_bits(t, out):
+        if isinstance(t, tuple) and t:
+            if t[0] == "bin" and t[1] == "Shl" and t[2][0] == "const" and t[2][2] == 1:
+                out.append(t[3])
+                return
+            for x in t:
+                if isinstance(x, tuple):
+                    single_bits(x, out)
+
+    def check(pretty, idx, valterm, span):
+        nonlocal n
+        if not (idx is not None and idx[0] == "bin" and idx[1] == "Shr" and idx[3][0] == "const" and isinstance(idx[3][2], int)):
+            return
+        x, k = idx[2], idx[3][2]
+        sh = []
+        single_bits(valterm, sh)
+        for a in sh:
+            if a[0] == "bin" and a[1] == "BitAnd" and x in (a[2], a[3]):
+                m = a[3] if a[2] == x else a[2]
+                if m[0] == "const" and isinstance(m[2], int):
+                    n += 1
+                    o.check(m[2] == (1 << k) - 1, pretty, "bit-index-width", "a bit set addresses word x >> %d but bit x & %d: elements "
+                            "whose ids differ in a dropped bit share one bit (or the shift overflows)" % (k, m[2]), span)
+    for p in crate.fn_paths():
+        an = crate.an(p)
+        pretty = crate.prog.pretty[p]
+        span = crate.prog.fns[p].get("span")
+        seen = set()
+        for ev in an.events:
+            if ev["k"] == "store":
+                c, idx = store_elem(ev)
+                if c is not None:
+                    check(pretty, idx, ev["val"], ev["span"])
+
+        def walk(t):
+            if not isinstance(t, tuple) or not t or t in seen:
+                return
+            seen.add(t)
+            if t[0] == "bin" and t[1] in ("BitAnd", "BitOr", "BitXor"):
+                for w, m in ((t[2], t[3]), (t[3], t[2])):
+                    r, li = load_parts(w)
+                    if r is not None:
+                        check(pretty, li, m, span)
+            for x in t:
+                if isinstance(x, tuple):
+                    walk(x)
+        for t in _all_terms(an):
+            walk(t)
+    o.instances = n
+    return o.report(floors={"bit-set accesses (x >> k with 1 << (x & m))": (n, 3)})
 
 
 def rule_encaps(crate, prop, tier):
